@@ -33,6 +33,7 @@ def jobs(tier):
                                        "reference meaning (lets/overrides applied, macros expanded, loops unrolled, aliases resolved)"))
     for t in (["t_alias_macro", "t_chain", "t_macro_nested", "t_blocks"] if q else ["t_alias_macro", "t_chain", "t_macro_nested", "t_blocks", "t_macro_sub", "t_slice_let", "t_seqfirst", "t_let_arg", "t_macro_idx"]):
         out.extend(tjobs(f"{H}:state_template", t, tier, fixed={"mask": 0, "o0": 0}, timeout=600 if q else 2400, name=f"c03_template_{t}", base="state_template",
+                         shrink=({"size": (2, 3), "a": (0, 1), "c": (1, 2), "i": (0, 1), "j": (0, 1), "k": (0, 1)} if q else None),
                          functions=["run_jaqal_circuit", "UnitarySerializedEmulator._make_subcircuit", "TraceSerializer"],
                          note=f"{t} bracketed for execution: emulated state of every subcircuit == reference product over the reference meaning"))
     return out
